@@ -237,6 +237,7 @@ def run_check(prop, tier, seed, P, only_units=None, quiet=False):
             return j, -999, "driver wall-clock watchdog"
 
     summaries = []
+    sits_seen = {}
     sites = set()
     ops = {}
     samples = []
@@ -264,6 +265,8 @@ def run_check(prop, tier, seed, P, only_units=None, quiet=False):
                     summaries.append(r)
                 elif k == "op":
                     ops[r["label"]] = ops.get(r["label"], 0) + r["n"]
+                elif k == "sit":
+                    sits_seen[r["label"]] = sits_seen.get(r["label"], 0) + r["n"]
                 elif k == "sample":
                     if len(samples) < 400:
                         samples.append(r)
@@ -372,6 +375,8 @@ def run_check(prop, tier, seed, P, only_units=None, quiet=False):
             exhaustive_note=P.get("exhaustive_note", "true only when every unit's enumerated part is a complete enumeration of its stated finite scope and all shards finished"),
             cases_run=int(cases_done), per_unit=unit_cases,
             per_operation={k: ops[k] for k in sorted(ops)},
+            situations_reached=len(sits_seen),
+            per_situation_calls={k: sits_seen[k] for k in sorted(sits_seen)[:1500]},
             flavours=sorted({fl for (_, fl) in builds}),
             sanitizer_or_crash_records=sum(1 for r in records if r["k"] in ("crash", "hang")),
             violation_keys=[k for k, _ in violations][:200],
